@@ -202,7 +202,7 @@ def analysis_check(pid, tier, seed, *, items, want, builders, N, variants=None, 
         "exhaustive": False,
     }
     ctx = {"run": run, "items": items, "results": results_by_variant, "verdicts": verdicts, "traces": by_id,
-           "meta": all_meta}
+           "meta": all_meta, "variants": variants}
     if post:
         coverage.update(post(ctx) or {})
     if extra_coverage:
@@ -217,7 +217,7 @@ def analysis_check(pid, tier, seed, *, items, want, builders, N, variants=None, 
 
 
 def standard_items(run_seed, tier, n_gen_quick, n_gen_thorough, bench_quick=15, profile=None, maxdeg=2, ngoals=5,
-                   corpus=True, bench=True, corpus_quick=None):
+                   corpus=True, bench=True, corpus_quick=None, ps_quick=0, ps_thorough=0):
     quick = tier == "quick"
     items = C.corpus_files() if corpus else []
     if quick and corpus_quick is not None:
@@ -231,6 +231,12 @@ def standard_items(run_seed, tier, n_gen_quick, n_gen_thorough, bench_quick=15, 
     items += C.fixed_templates()
     items += C.generated(run_seed, n_gen_quick if quick else n_gen_thorough, profile=profile,
                          maxdeg=maxdeg if quick else maxdeg + 1, ngoals=ngoals if quick else ngoals + 3)
+    nps = ps_quick if quick else ps_thorough
+    if nps:
+        # spec -> code: programs enumerated by TLC from spec/ProgSpace.tla (every body of at most 2 statements of its menu)
+        from . import progspace
+        ps, _cov = progspace.items(2, 4, sample=nps, rng=random.Random(run_seed + 5))
+        items += ps
     return items
 
 
